@@ -293,11 +293,14 @@ class Prober:
             self.seen[key] = val
         upd = []
         for msg in self.conn.msgs:
+            um, _, un = msg[1].partition(':')
+            if msg[0] == 'error_update':      # an error instead of a value
+                upd.append({'mod': um, 'name': un, 'v': None, 'imp': True, 'err': True})
+                continue
             if msg[0] != 'update':
                 continue
-            um, _, un = msg[1].partition(':')
-            upd.append({'mod': um, 'name': un, 'v': msg[2][0], 'imp': self._importable((um, un), msg[2][0])
-                        and strict_json(msg[2])})
+            upd.append({'mod': um, 'name': un, 'v': msg[2][0], 'err': False,
+                        'imp': self._importable((um, un), msg[2][0]) and strict_json(msg[2])})
             self.seen[um, un] = msg[2][0]
         ev['upd'] = upd
         self.events.append(ev)
